@@ -33,7 +33,7 @@ func c06Verdict(lang string, out ast.Schemas) string {
 	seen := map[string]int{}
 	for _, v := range vs {
 		seen[v.conjunct]++
-		if seen[v.conjunct] <= 3 {
+		if seen[v.conjunct] <= 8 {
 			parts = append(parts, v.conjunct+"@"+v.path)
 		}
 	}
